@@ -202,6 +202,39 @@ def collections(tier):
                     out.append(("json-collection", f"json collection ({form}) member {k} differs"))
 
         guarded(f"json-collection({form})", js)
+
+        def rewrite(form=form):
+            # the same directory and collection name written twice in one process with different content: the second read
+            # must return the second content (files are the only memory between a write and a read)
+            d = os.path.join(_DIR, f"rew-{os.getpid()}-{form}")
+            os.makedirs(d, exist_ok=True)
+            gen1 = nets if form == "list" else {"a": nets[0], "b": nets[1], "c": nets[2]}
+            gen2 = [nets[2], nets[0], nets[1]] if form == "list" else {"a": nets[1], "b": nets[2], "c": nets[0]}
+            info = os.path.join(d, "c_collection_information.json")
+            for gen in (gen1, gen2, gen1):
+                xgi.write_hif_collection(gen, d, collection_name="c")
+                back = xgi.read_hif_collection(info)
+                want = list(gen) if form == "list" else list(gen.values())
+                keys = [str(i) for i in range(3)] if form == "list" else ["a", "b", "c"]
+                for k, X in zip(keys, want):
+                    X2 = back.get(k, back.get(int(k)) if k.isdigit() else None)
+                    if X2 is None or full(X) != full(X2):
+                        out.append(("hif-collection", f"collection ({form}) re-written in place: member {k} read back as "
+                                    f"{_fd(full(X), full(X2)) if X2 is not None else 'missing'}"))
+            # a single file re-written in place
+            p1 = os.path.join(d, "single.hif.json")
+            for X in (nets[0], nets[2], nets[1]):
+                xgi.write_hif(X, p1)
+                if full(xgi.read_hif(p1)) != full(X):
+                    out.append(("hif", f"{p1} re-written in place reads back another network"))
+            pj = os.path.join(d, "single.json")
+            for X in (hs0, hs1):
+                xgi.write_json(X, pj)
+                if full(xgi.read_json(pj, nodetype=int, edgetype=int)) != full(X):
+                    out.append(("json", "a JSON file re-written in place reads back another network"))
+
+        hs0, hs1 = F.build(decorate(F.H([[1, 2], [2, 3]], nodes=[1, 2, 3, 4]), 2)), F.build(F.H([[1], [1, 2, 3]]))
+        guarded(f"rewritten-in-place({form})", rewrite)
     return n, out
 
 
